@@ -3,8 +3,8 @@
 package c06
 
 import (
-	"errors"
 	"bytes"
+	"errors"
 	"fmt"
 	"io"
 	"testing"
